@@ -174,6 +174,9 @@ func itemText(i int) string {
 	return "pattern " + patternPool[i-len(specPool)]
 }
 
+// ruleMore describes what was added to the exploration in the build phase.
+const ruleMore = "; signatures contain a digest of the complete token automaton and, for selected pool items, the LALR(1) table or its conflict report; the pool pairs specifications in which the same text is a literal in one and a pattern in the other"
+
 func TestMain(m *testing.M) {
 	if w := os.Getenv("VERIF_WORKER_ITEM"); w != "" {
 		var i int
@@ -258,7 +261,7 @@ func checkHistory(items []int) error {
 }
 
 func TestHistories(t *testing.T) {
-	rec.Rule(rule)
+	rec.Rule(rule + ruleMore)
 	if _, err := isolated(); err != nil {
 		t.Fatalf("%v", err)
 	}
@@ -335,7 +338,7 @@ func concurrentPhase() {
 
 func TestConcurrentGoroutines(t *testing.T) {
 	rec.Begin(t)
-	rec.Rule(rule)
+	rec.Rule(rule + ruleMore)
 	base, err := isolated()
 	if err != nil {
 		t.Fatalf("harness: %v", err)
